@@ -212,6 +212,121 @@ def TABLES():
     out.extend(add_group_defs(rpc))
     out.extend(wait_defs(rpc))
     out.extend(answer_shape_defs(rpc, opt))
+    out.extend(handover_defs(xml))
+    return out
+
+
+# ---------------------------------------------------------------------------------------------------------------------
+# one connection, several requests: whose request is it?  `deferring_http_channel.found_terminator` hands whatever arrives
+# to `self.current_request` when that is set and cracks a new request header otherwise; the two places that finish a
+# response -- `deferring_http_request.done()` (answers given at once, error responses) and
+# `DeferredXMLRPCResponse.getresponse()` (answers given later) -- reset it.  Extracted by ROLE:
+#   <x>Clears (closeIt)   the condition under which `<...>.current_request = None` is executed in the finisher, in terms of
+#                         its close flag (= the name tested by the `if` that holds `....close_when_done()`); `true` when the
+#                         statement is at the top level of the function; `false` when it is missing
+#   chanDispatchStale     the test of the `if` in found_terminator whose true branch calls `self.current_request.found_terminator()`
+#   dispatchSetsCurrent   found_terminator assigns `self.current_request = <the new request>` before `<h>.handle_request(...)`
+#   rpcErrorAnswers       what `except RPCError as e:` turns the error into, on both paths (constructor, arguments)
+# ---------------------------------------------------------------------------------------------------------------------
+def _is_current_request(t):
+    return isinstance(t, ast.Attribute) and t.attr == 'current_request'
+
+
+def _clears_cond(func):
+    """Lean Bool expression over `closeIt`, or raises Untranslatable"""
+    from extract import Untranslatable
+    closers = [n for n in ast.walk(func) if isinstance(n, ast.If) and any(
+        isinstance(c, ast.Call) and isinstance(c.func, ast.Attribute) and c.func.attr == 'close_when_done' for b in n.body for c in ast.walk(b))]
+    flag = None
+    for n in closers:
+        if isinstance(n.test, ast.Name):
+            flag = n.test.id
+    terms = []
+    def cond_of(test):
+        if flag is not None and isinstance(test, ast.Name) and test.id == flag:
+            return 'closeIt'
+        if flag is not None and isinstance(test, ast.UnaryOp) and isinstance(test.op, ast.Not) and isinstance(test.operand, ast.Name) and test.operand.id == flag:
+            return '(!closeIt)'
+        raise Untranslatable('condition %s around the reset of current_request' % ast.unparse(test))
+    def walk(stmts, conds):
+        for st in stmts:
+            if isinstance(st, ast.Assign) and any(_is_current_request(t) for t in st.targets) and isinstance(st.value, ast.Constant) and st.value.value is None:
+                terms.append(list(conds))
+            elif isinstance(st, ast.If):
+                c = None
+                has = any(isinstance(n, ast.Assign) and any(_is_current_request(t) for t in n.targets) for n in ast.walk(st))
+                if has:
+                    c = cond_of(st.test)
+                    walk(st.body, conds + [c])
+                    walk(st.orelse, conds + ['(!%s)' % c])
+            elif isinstance(st, (ast.For, ast.While, ast.Try, ast.With)):
+                if any(isinstance(n, ast.Assign) and any(_is_current_request(t) for t in n.targets) for n in ast.walk(st)):
+                    raise Untranslatable('the reset of current_request sits inside a %s' % type(st).__name__)
+    walk(func.body, [])
+    if not terms:
+        return 'false'
+    if any(not t for t in terms):
+        return 'true'
+    return '(' + ' || '.join('(' + ' && '.join(t) + ')' for t in terms) + ')'
+
+
+def handover_defs(xml):
+    from extract import Untranslatable
+    out = ['/-! one connection, several requests: where `channel.current_request` is reset, tested and set -/']
+    http = _parse('supervisor/http.py')
+    for ident, tree, qual in (('doneClears', http, 'deferring_http_request.done'), ('defRespClears', xml, 'DeferredXMLRPCResponse.getresponse')):
+        try:
+            f = find_func(tree, qual)
+            out.append('/-- %s: when is `<...>.current_request = None` executed, in terms of the close flag -/' % qual)
+            out.append('def %s (closeIt : Bool) : Bool := %s' % (ident, _clears_cond(f)))
+        except Exception as ex:
+            out.append('-- %s  %s  UNTRANSLATED (%s: %s)' % (ident, qual, type(ex).__name__, str(ex).replace('\n', ' ')))
+    try:
+        ft = find_func(http, 'deferring_http_channel.found_terminator')
+        def hands_on(stmts):
+            return any(isinstance(c, ast.Call) and ast.unparse(c.func) == 'self.current_request.found_terminator' for b in stmts for c in ast.walk(b))
+        ifs = [n for n in ft.body if isinstance(n, ast.If) and (hands_on(n.body) or hands_on(n.orelse))]
+        n = _only(ifs, 'the `if` that hands on to self.current_request')
+        t = ast.unparse(n.test)
+        pos = {'self.current_request': True, 'self.current_request is not None': True, 'not self.current_request': False, 'self.current_request is None': False}
+        if t not in pos or pos[t] != hands_on(n.body):
+            raise Untranslatable('the test %s does not select the branch that hands on by whether current_request is set' % t)
+        out.append('/-- deferring_http_channel.found_terminator:%d  `%s`: is what arrives handed to the request that is current? -/' % (n.lineno, t))
+        out.append('def chanDispatchStale (current : Bool) : Bool := current')
+        sets = False
+        for blk in ast.walk(ft):
+            body = getattr(blk, 'body', None)
+            if not isinstance(body, list):
+                continue
+            seen_set = False
+            for st in body:
+                if isinstance(st, ast.Assign) and any(ast.unparse(tg) == 'self.current_request' for tg in st.targets) and isinstance(st.value, ast.Name):
+                    seen_set = True
+                if isinstance(st, ast.Expr) and isinstance(st.value, ast.Call) and isinstance(st.value.func, ast.Attribute) and st.value.func.attr == 'handle_request' and seen_set:
+                    sets = True
+        out.append('/-- deferring_http_channel.found_terminator: `self.current_request = <the new request>` precedes `<handler>.handle_request(...)` -/')
+        out.append('def dispatchSetsCurrent : Bool := %s' % ('true' if sets else 'false'))
+    except Exception as ex:
+        out.append('-- chanDispatchStale  deferring_http_channel.found_terminator  UNTRANSLATED (%s: %s)' % (type(ex).__name__, str(ex).replace('\n', ' ')))
+    rows = []
+    for key, qual in (('continue_request', 'supervisor_xmlrpc_handler.continue_request'), ('more', 'DeferredXMLRPCResponse.more')):
+        try:
+            f = find_func(xml, qual)
+            hs = [h for t in ast.walk(f) if isinstance(t, ast.Try) for h in t.handlers if h.type is not None and ast.unparse(h.type).split('.')[-1] == 'RPCError']
+            h = _only(hs, 'except RPCError in ' + qual)
+            asg = _only([st for st in h.body if isinstance(st, ast.Assign)], 'the assignment in the handler')
+            v = asg.value
+            ev = h.name or 'err'
+            def norm(e):
+                return ast.unparse(e).replace('\n', ' ').replace(ev + '.', 'err.')
+            if isinstance(v, ast.Call) and not v.keywords:
+                rows.append('(%s, %s, [%s])' % (lean_str(key), lean_str(ast.unparse(v.func)), ', '.join(lean_str(norm(a)) for a in v.args)))
+            else:
+                rows.append('(%s, %s, [])' % (lean_str(key), lean_str('expr:' + norm(v))))
+        except Exception as ex:
+            rows.append('(%s, %s, [])' % (lean_str(key), lean_str('?' + type(ex).__name__)))
+    out.append('/-- what `except RPCError as err:` makes of the error: (path, constructor, arguments) -- answers given at once / later -/')
+    out.append('def rpcErrorAnswers : List (String × String × List String) := [' + ', '.join(rows) + ']')
     return out
 
 
